@@ -467,9 +467,11 @@ XLINK = "{http://www.w3.org/1999/xlink}href"
 MIRROR = (1.0, 0.0, 0.0, -1.0, 0.0, 0.0)
 
 
-def otsvg_picture(doc_text, gid):
+def otsvg_picture(doc_text, gid, whole_document_to_font=None):
     """Render the element glyph<gid> of an OT-SVG document into a picture in font space
-    (the document is y-down with the origin on the baseline: mirror y at the end)."""
+    (the document is y-down with the origin on the baseline: mirror y at the end).
+    With whole_document_to_font = an affine (viewBox -> font space), render instead every child of
+    the root of a stand-alone SVG document and map it by that affine."""
     root = etree.fromstring(doc_text.encode("utf-8") if isinstance(doc_text, str) else doc_text)
     byid = {}
     for el in root.iter():
@@ -481,9 +483,11 @@ def otsvg_picture(doc_text, gid):
     if dups:
         problems.append(f"duplicate ids {dups[:3]}")
     gl = byid.get(f"glyph{gid}", [])
-    if len(gl) != 1:
+    if whole_document_to_font is None and len(gl) != 1:
         problems.append(f"{len(gl)} elements with id glyph{gid}")
         return [], problems
+    # final map from document space to font space
+    FINAL = MIRROR if whole_document_to_font is None else whole_document_to_font
 
     def gradient_fill(g, T, opacity, el_bbox_polys):
         units = g.get("gradientUnits", "objectBoundingBox")
@@ -547,11 +551,11 @@ def otsvg_picture(doc_text, gid):
                     problems.append(f"gradient {gid_} does not resolve in this document")
                     f = ("unknown",)
                 else:
-                    f = gradient_fill(g[0], amul(MIRROR, T), op, src)
+                    f = gradient_fill(g[0], amul(FINAL, T), op, src)
             else:
                 rgb, a, idx = parse_css_color(fill)
                 f = ("solid", rgb, a * op, idx)
-            return [("shape", map_polys(amul(MIRROR, T), src), f, el.get("id") or el.get("d")[:30], 1.0, slack)]
+            return [("shape", map_polys(amul(FINAL, T), src), f, el.get("id") or el.get("d")[:30], 1.0, slack)]
         if tag == SVGNS + "defs":
             return []
         problems.append(f"unexpected element {tag}")
@@ -583,6 +587,11 @@ def otsvg_picture(doc_text, gid):
             m = max(m, anorm(t) * e + abs(t[4]) + abs(t[5]))
         return m
 
+    if whole_document_to_font is not None:
+        items = []
+        for ch in root:
+            items.extend(render(ch, ID, {}))
+        return items, problems
     # transforms of ancestors of the glyph element apply too (nanoemoji puts none)
     return render(gl[0], ID, {}), problems
 
